@@ -279,6 +279,10 @@ C('setmulti 0 %s %s %s' % (hx(b'il'), hx(b'7'), hx(b'0x10')), lambda st: st.setm
 C('setmulti 0 %s %s %s' % (hx(b'il'), hx(b'7'), hx(b'zz')), lambda st: st.setmulti(b'il', [b'7', b'zz']))
 C('setmulti 0 %s %s' % (hx(b'i'), hx(b'5')), lambda st: st.setmulti(b'i', [b'5']))
 C('setmulti 0 %s %s' % (hx(b'i'), hx(b'5x')), lambda st: st.setmulti(b'i', [b'5x']))
+# a scalar keeps the last of several strings, but every one of them has to convert
+C('setmulti 0 %s %s %s' % (hx(b'i'), hx(b'oops'), hx(b'5')), lambda st: st.setmulti(b'i', [b'oops', b'5']))
+C('setmulti 0 %s %s %s' % (hx(b'i'), hx(b'4'), hx(b'6')), lambda st: st.setmulti(b'i', [b'4', b'6']))
+C('setmulti 0 %s %s %s %s' % (hx(b'b'), hx(b'true'), hx(b'maybe'), hx(b'off')), lambda st: st.setmulti(b'b', [b'true', b'maybe', b'off']))
 C('setmulti 0 %s %s %s' % (hx(b'sl'), hx(b'a'), hx(b'b')), lambda st: st.setmulti(b'sl', [b'a', b'b']))
 for path, title in ((b't', b'x'), (b't', b'y'), (b'm', b'k'), (b'sec', b'z'), (b'i', b'x'), (b'nosuch', b'x')):
     C('addtsec 0 %s %s' % (hx(path), hx(title)), lambda st, p=path, t=title: st.addtsec(p, t))
